@@ -6,7 +6,7 @@ from lib import boundsrt as B
 
 def run(tier, seed, replay):
     chk = common.Check("C04", tier, seed)
-    st = common.check_proofs(chk, "C04", extra_dirs=("Fmt", "Gen", "C05"))
+    st = common.check_proofs(chk, "C04", extra_dirs=("Fmt", "Gen", "C05", "C02"))
     n = 3500 if tier == "quick" else 20000
     C.decision_tie(chk, n, n // 2)
 
@@ -43,7 +43,8 @@ def run(tier, seed, replay):
         chk, st,
         rule="(1) generated Display-like/Debug items whose field types are random type trees over the type parameters (paths, "
              "qualified/associated types, references, arrays, tuples, fn pointers, trait objects, Fn(..) sugar): model vs real expander, "
-             "exact where-clause (order and multiplicity included); (2) generic structs/enums (1-3 type parameters inside T, W<T>, "
+             "exact where-clause (order and multiplicity included; several bound(...) attributes per item, on enums and variants, in "
+             "any order and mixed with attributes of other derives); (2) generic structs/enums (1-3 type parameters inside T, W<T>, "
              "Box<T>, Vec/Option/arrays/tuples; struct-, variant-, field-level attributes; named/positional/aliased/by-position "
              "references, expression arguments with user bound(...)) compiled by rustc with the real macro: the derive must compile and "
              "Ty<..NoFmt for every unformatted parameter..> must implement the trait; non-trivial = every case; distinct by source",
@@ -57,7 +58,10 @@ META = {
     "text": "Proved for all attributes/field lists: a bound FieldTy: Tr is emitted iff a placeholder under Tr denotes (by name, "
             "position or bare-identifier argument) a field whose type mentions a type parameter; user bound(...) predicates are kept "
             "unchanged; nothing else is bounded (not excessive); the placeholders are those format_args! sees (C03); Debug's per-field "
-            "rules. The model is tied to the expander on exact where-clauses each run, and rustc judges sufficiency and availability "
+            "rules. Also proved, for every combination of own and enum-level attribute and for Debug: the where-clause bounds FieldTy: Tr "
+            "iff the generated body formats a field of that generic type under Tr (write!, text bound to _variant, enum-level format, "
+            "delegation) - body/bounds consistency; name resolution (_k / field identifiers) is complete and sound up to the spelling of "
+            "a tuple index; all bound(...) attributes are merged. The model is tied to the expander on exact where-clauses each run, and rustc judges sufficiency and availability "
             "on a generic corpus with the real macro.",
     "note": "Trusted: Coq kernel; Fmt/Model.v tied by differential runs; rustc as judge of what a body needs (not modelled); "
             "the oracle's reading of 'formatted parameter' from the property text.",
